@@ -19,7 +19,7 @@ else:
 from zigpy.datastructures import PriorityDynamicBoundedSemaphore
 
 from bellows.config import CONF_EZSP_POLICIES
-from bellows.exception import InvalidCommandError
+from bellows.exception import EzspError, InvalidCommandError
 import bellows.types as t
 
 if TYPE_CHECKING:
@@ -50,6 +50,7 @@ class ProtocolHandler(abc.ABC):
         self._send_semaphore = PriorityDynamicBoundedSemaphore(
             value=MAX_COMMAND_CONCURRENCY
         )
+        self._stopped = False
 
         # Cached by `set_extended_timeout` so subsequent calls are a little faster
         self._address_table_size: int | None = None
@@ -88,6 +89,11 @@ class ProtocolHandler(abc.ABC):
             "getValue": 999,
         }.get(name, 0)
 
+    def stop(self) -> None:
+        """The NCP is about to be reset: fail the commands that were not sent yet."""
+        self._stopped = True
+        self._send_semaphore.cancel_waiting(EzspError("EZSP is being reset"))
+
     async def command(self, name, *args, **kwargs) -> Any:
         """Serialize command and send it."""
         delayed = False
@@ -105,6 +111,10 @@ class ProtocolHandler(abc.ABC):
             )
 
         async with self._send_semaphore(priority=self._get_command_priority(name)):
+            if self._stopped:
+                # Our turn came just as the reset started
+                raise EzspError("EZSP is being reset")
+
             if delayed:
                 LOGGER.debug(
                     "Sending command  %s: %s %s after %0.2fs delay",
